@@ -166,4 +166,110 @@ theorem resend_happens_with_readers_stopped :
     (PRV.Gen.C03.setDestCalls.idxOf "StopDestToSource" < PRV.Gen.C03.setDestCalls.idxOf "resendRelevantNotifications") ∧
     (PRV.Gen.C03.setDestCalls.idxOf "resendRelevantNotifications" < PRV.Gen.C03.setDestCalls.idxOf "StartDestToSource") := by decide
 
+/-! ### whole histories of pool events -/
+
+/-- what a pool connection can send on its own -/
+inductive PoolEv where
+  | notify (pool job tmpl : String) (clean : Bool)
+  | diff (pool txt : String) (n : Nat)
+  | extranonce (pool x : String) (sz : Nat)
+  | mask (pool mk : String)
+
+def PoolEv.pool : PoolEv → String
+  | .notify p _ _ _ => p | .diff p _ _ => p | .extranonce p _ _ => p | .mask p _ => p
+
+def poolStep (s : Sess) : PoolEv → Sess × List Out
+  | .notify p j t c => onNotify s p j t c
+  | .diff p t n => onDiff s p t n
+  | .extranonce p x z => onExtranonce s p x z
+  | .mask p m => onMask s p m
+
+def poolRun : Sess → List PoolEv → Sess × List Out
+  | s, [] => (s, [])
+  | s, e :: es => let r := poolStep s e; let rr := poolRun r.1 es; (rr.1, r.2 ++ rr.2)
+
+theorem lastConnOf_pool_aux (pool : String) (l : List Dest) (acc : Option Dest) (d : Dest)
+    (hl : ∀ x ∈ l, x.pool = pool) (hacc : ∀ a, acc = some a → a.pool = pool)
+    (h : l.foldl (fun acc d => match acc with
+      | none => some d
+      | some a => if a.conn < d.conn then some d else some a) acc = some d) : d.pool = pool := by
+  induction l generalizing acc with
+  | nil => exact hacc d h
+  | cons x xs ih =>
+    rw [List.foldl_cons] at h
+    refine ih _ (fun y hy => hl y (List.mem_cons_of_mem _ hy)) ?_ h
+    intro a ha
+    cases acc with
+    | none => simp only [Option.some.injEq] at ha; rw [← ha]; exact hl x (by simp)
+    | some a0 =>
+      simp only at ha
+      split at ha
+      · simp only [Option.some.injEq] at ha; rw [← ha]; exact hl x (by simp)
+      · simp only [Option.some.injEq] at ha; rw [← ha]; exact hacc a0 rfl
+
+/-- the connection a pool writes to is one of that pool's -/
+theorem lastConnOf_pool (s : Sess) (pool : String) (d : Dest) (h : lastConnOf s pool = some d) : d.pool = pool := by
+  unfold lastConnOf at h
+  exact lastConnOf_pool_aux pool _ none d (fun x hx => by simpa using (List.mem_filter.mp hx).2) (fun a ha => by cases ha) h
+
+/-- no pool event changes which destination the miner is assigned to -/
+theorem poolStep_active (s : Sess) (e : PoolEv) : (poolStep s e).1.active = s.active := by
+  cases e <;> simp only [poolStep, onNotify, onDiff, onExtranonce, onMask] <;> split <;> rfl
+
+/-- **Pools the miner is not assigned to never reach it, whatever they send and for however long**:
+over every history of pool events that all come from pools other than the one the miner is assigned
+to, nothing at all is written to the miner (or to anyone). -/
+theorem other_pools_silent_history (s : Sess) (es : List PoolEv)
+    (h : ∀ e ∈ es, ∀ k, s.active = some k → e.pool ≠ k.1) :
+    (poolRun s es).2 = [] ∧ (poolRun s es).1.active = s.active := by
+  induction es generalizing s with
+  | nil => exact ⟨rfl, rfl⟩
+  | cons e es ih =>
+    have hstep : (poolStep s e).2 = [] := by
+      have he := h e (by simp)
+      have key : ∀ d, lastConnOf s e.pool = some d → isActive s d = false := by
+        intro d hd
+        have hp := lastConnOf_pool s e.pool d hd
+        unfold isActive
+        cases ha : s.active with
+        | none => simp
+        | some k =>
+          have := he k ha
+          simp only [decide_eq_false_iff_not, Option.some.injEq]
+          intro e'; apply this; rw [e']; exact hp.symm
+      cases e with
+      | notify p j t c =>
+        show (onNotify s p j t c).2 = []
+        unfold onNotify
+        cases hd : lastConnOf s p with
+        | none => rfl
+        | some d => simp [key d hd]
+      | diff p t n =>
+        show (onDiff s p t n).2 = []
+        unfold onDiff
+        cases hd : lastConnOf s p with
+        | none => rfl
+        | some d => simp [key d hd]
+      | extranonce p x z =>
+        show (onExtranonce s p x z).2 = []
+        unfold onExtranonce
+        cases hd : lastConnOf s p with
+        | none => rfl
+        | some d => simp [key d hd]
+      | mask p m =>
+        show (onMask s p m).2 = []
+        unfold onMask
+        cases hd : lastConnOf s p with
+        | none => rfl
+        | some d => simp [key d hd]
+    have hact := poolStep_active s e
+    have i := ih (poolStep s e).1 (by
+      intro e' he' k hk
+      rw [hact] at hk
+      exact h e' (List.mem_cons_of_mem _ he') k hk)
+    unfold poolRun
+    simp only
+    rw [hstep, i.1]
+    exact ⟨rfl, i.2.trans hact⟩
+
 end PRV.Props.C03
